@@ -35,6 +35,8 @@ def run(R):
         r3(R)
     if R.want("C19.R4"):
         r4(R)
+    if R.want("C19.R5"):
+        r5(R)
 
 
 PAIRS = [
@@ -425,3 +427,38 @@ def r4(R):
              and "pad" in src(r.value.elts[1]).lower() for r in rets) and bool(rets)
     R.check(ok, "C19.R4", GEO, sp.lineno, "sino_shift_and_pad", "return (shift, pad)", "producer's return order changed")
     R.floor("C19.R4", 4)
+
+
+
+# --------------------------------------------------------------------------------------------------
+def r5(R):
+    R.rule("C19.R5", "sino_shift_and_pad: shift is the SIGNED offset ny/2 - (y0 - ymin)/ystep (an identity in y0, ny, ymin, ystep), the "
+                     "unrounded form of dty_to_dtyi(y0); pad is ceil(2|shift|) + 1")
+    I, m = interp(R)
+    if not m.has("sino_shift_and_pad"):
+        R.fail("geometry.sino_shift_and_pad vanished")
+    fn = m.func("sino_shift_and_pad")
+    y0, ny, ymin, ystep = sym("y0"), sym("ny"), sym("ymin"), sym("ystep")
+    out = I.call("geometry", "sino_shift_and_pad", y0, ny, ymin, ystep)
+    R.shape(isinstance(out, (tuple, list)) and len(out) == 2, "C19.R5", GEO, "sino_shift_and_pad", "a (shift, pad) pair")
+    shift = vn_py.R(out[0])
+    want = ny * vn.const(1) / vn.const(2) - (y0 - ymin) / ystep
+    R.check(vn.equal(shift, want), "C19.R5", GEO, fn.lineno, "sino_shift_and_pad", "shift == ny/2 - (y0 - ymin)/ystep",
+            "the shift handed to the reconstruction is not the signed distance between the middle row and the rotation axis (got %s): "
+            "scans whose axis lies on the other side of the middle are back-projected about the wrong centre" % vn_py._short(shift))
+    # consistency with the module's own discretisation: dty_to_dtyi(y0) == round(ny/2 - shift)
+    if m.has("dty_to_dtyi"):
+        di = vn_py.R(I.call("geometry", "dty_to_dtyi", y0, ystep, ymin))
+        R.check(vn.equal(di, vn.app("rnd", ny * vn.const(1) / vn.const(2) - shift)), "C19.R5", GEO, fn.lineno, "sino_shift_and_pad",
+                "dty_to_dtyi(y0) == round(ny/2 - shift)", "the axis row used for the shift disagrees with the module's dty -> dtyi conversion")
+    # pad
+    pad = vn_py.R(out[1])
+    ok = False
+    for absname in ("abs", "fabs", "absolute"):
+        for ceilname in ("ceil",):
+            cand = vn.app(ceilname, vn.app(absname, want) * vn.const(2)) + vn.const(1)
+            if vn.equal(pad, cand):
+                ok = True
+    R.check(ok, "C19.R5", GEO, fn.lineno, "sino_shift_and_pad", "pad == ceil(2*|shift|) + 1",
+            "the padding is not twice the magnitude of the shift plus one: part of the sample leaves the frame (got %s)" % vn_py._short(pad))
+
